@@ -5,6 +5,7 @@ import Driver.Rsm
 import Driver.Apl
 import Driver.Csv
 import Driver.Sqlw
+import Driver.Sqlr
 /-
   gfdriver: reads protocol lines (one case per line) from the file given as first argument (or stdin),
   writes one verdict line per case: `<case-id> <engine> key=value …`.
@@ -23,6 +24,8 @@ def checkLine (line : String) : String :=
       | "APL" => checkApl
       | "CSV" => checkCsv
       | "SQLW" => checkSqlw
+      | "QID" => checkQid
+      | "SQLR" => checkSqlr
       | e => throw s!"unknown engine {e}"
     pure s!"{id} {eng} {res}"
   match runP p line with
